@@ -229,10 +229,16 @@ func ParseMessage(reader *bufio.Reader) (*Message, error) {
 	if contentLength < 0 {
 		return nil, errors.New("invalid negative Content-Length field")
 	}
-	msg.body = make([]byte, contentLength)
-	if _, err = io.ReadFull(reader, msg.body); err != nil {
+	// read the body incrementally: the memory used is bounded by the bytes that actually
+	// arrive, not by the number the peer wrote into Content-Length
+	body, err := io.ReadAll(io.LimitReader(reader, int64(contentLength)))
+	if err != nil {
 		return nil, err
 	}
+	if len(body) < contentLength {
+		return nil, io.ErrUnexpectedEOF
+	}
+	msg.body = body
 	return msg, nil
 }
 
